@@ -21,7 +21,7 @@ class Peer:
     """what the fake TLS peer presents and how it answers"""
     def __init__(self, der, chunks, exc): self.der, self.chunks, self.exc = der, chunks, exc
 
-async def one_call(loop, client, op, url, peer, trace, content=b"", token=None):
+async def one_call(loop, client, op, url, peer, trace, content=b"", token=None, referee_verdict=None):
     from nauyaca.security.tofu import CertificateChangedError
     import nauyaca.client.protocol as cp
     cp.MAX_RESPONSE_BODY_SIZE = cd.CAP
@@ -78,8 +78,11 @@ async def one_call(loop, client, op, url, peer, trace, content=b"", token=None):
         result = ["result", ["err", cd.classify(e)]]; verdict = ["accepted"]
     finally:
         del loop.create_connection
+    # the verdict shown to the C11 monitor is the REFEREE's (what the pin check must conclude from the store and the presented
+    # certificate), not what the call's outcome suggests: a call that "succeeds" against an unreadable or changed certificate
+    # must not make its own writes look authorised
     for m in marks:
-        trace[m] = ["v", verdict]
+        trace[m] = ["v", referee_verdict if referee_verdict is not None else verdict]
     return result
 
 def expected_request(op, url, content, token):
@@ -151,7 +154,13 @@ def run_histories(tier, seed, tofu_modes=(True, False)):
                         _, op, host, port, der, resp, exc, content, token = st
                         url = "gemini://%s%s/p?q=1" % (host, "" if port == 1965 else ":%d" % port)
                         trace = []
-                        result = await one_call(loop, client, op, url, Peer(der, resp, exc), trace, content, token)
+                        hname = host[1:-1] if host.startswith("[") else host
+                        pinned = [r for r in before if r[0] == hname and r[1] == port]
+                        if not tofu: ref = None
+                        elif der not in fp_of: ref = ["refused"]
+                        elif pinned and pinned[0][2] != fp_of[der]: ref = ["changed", pinned[0][2], fp_of[der]]
+                        else: ref = ["accepted"]
+                        result = await one_call(loop, client, op, url, Peer(der, resp, exc), trace, content, token, referee_verdict=ref)
                         after = read_rows(path)
                         h = host[1:-1] if host.startswith("[") else host
                         presented = ["cert", fp_of[der]] if der in fp_of else ["unreadable"]
